@@ -101,7 +101,7 @@ func runScene(enc *json.Encoder, c Case, seed int64) error {
 		if bst != "OK" {
 			continue
 		}
-		line := batchLine{K: "hit", Case: c.Id, Fail: []int{}, Nan: []int{}}
+		line := batchLine{K: "hit", Case: c.Id, Fail: []int{}, Nan: []int{}, Nana: []int{}}
 		batch := make([]hitEntry, 0, len(c.Rays))
 		for qi, q := range c.Rays {
 			td := float64(q[8])
@@ -118,10 +118,11 @@ func runScene(enc *json.Encoder, c Case, seed int64) error {
 					e.Te[i] = r.T
 				}
 			}
-			e.List = hitOf(list, &ray, t0, t1, &bad)
-			e.Bvh = hitOf(bvh, &ray, t0, t1, &bad)
-			e.Oct = hitOf(oct, &ray, t0, t1, &bad)
-			line.note(qi, "OK", bad)
+			badAns := false
+			e.List = hitOf(list, &ray, t0, t1, &badAns)
+			e.Bvh = hitOf(bvh, &ray, t0, t1, &badAns)
+			e.Oct = hitOf(oct, &ray, t0, t1, &badAns)
+			line.note(qi, "OK", bad, badAns)
 			batch = append(batch, e)
 		}
 		line.B = batch
